@@ -156,11 +156,65 @@ def r2(R):
     loops = [l for l in walk_local(f.node) if isinstance(l, ast.For) and
              isinstance(l.iter, ast.Name)]
     ok = False
+    roots_var = None
     for l in loops:
         src = ast.unparse(l)
         if 'findrefs' in src and 'findReachableAtPacktime' in src:
             pv = provenance(l.iter, g.root, F)
             ok = True
+            roots_var = l.iter.id
+    # a non-current revision kept for a later back-pointer becomes a root:
+    # what IT refers to may be referenced by nothing else
+    if roots_var is not None:
+        def kept_extra(node):
+            """L.append(<target>) with L from self.reach_ex -> target text"""
+            for op in F.ops(node):
+                if op.kind == 'call' and op.path and op.path[0] == '%local' \
+                        and op.path[-1] == 'append' and op.path[1] != \
+                        roots_var and op.ast.args:
+                    pv2 = provenance(ast.Name(id=op.path[1], ctx=ast.Load()),
+                                     node.frame, F)
+                    if ('path', ('self', 'reach_ex')) in pv2 or prov_has(
+                            pv2, 'call', lambda p: p[:2] == ('self',
+                                                             'reach_ex')):
+                        return ast.dump(op.ast.args[0])
+            return None
+
+        def rooted(node):
+            for op in F.ops(node):
+                if op.kind == 'call' and op.path == ('%local', roots_var,
+                                                     'append') and \
+                        op.ast.args:
+                    return ast.dump(op.ast.args[0])
+            return None
+
+        def edge_r(node, st, lab, tgt):
+            if lab == 'e':
+                return st
+            k = kept_extra(node)
+            if k is not None:
+                return k
+            r = rooted(node)
+            if r is not None and r == st:
+                return None
+            return st
+
+        def at_r(node, st):
+            if st is not None and node.kind == 'loophead':
+                return Violation(
+                    'a non-current revision is kept because a later record '
+                    'points back to it, but it is not queued as an extra '
+                    'root: objects that only this old revision refers to '
+                    'are garbage-collected although the later (undo) record '
+                    'makes them reachable again')
+            return st
+
+        vs_r, stats_r = explore(g, None, at=at_r, edge=edge_r)
+        R.count(stats_r)
+        for v in vs_r:
+            R.violation((f.module.relpath, f.qualname,
+                         'kept revision queued as root'), v.message, g,
+                        v.path)
     if not ok:
         R.violation((f.module.relpath, f.qualname, 'extra roots'),
                     'the objects referenced by non-current revisions kept '
@@ -446,3 +500,48 @@ def r7(R):
         R.violation((f.module.relpath, f.qualname, 'sweep root'),
                     'the garbage collection sweep no longer starts at the '
                     'root object')
+
+
+# ------------------------------------------------------------------ C07.R8
+@rule('C07.R8', 'every implementation of the backpointer search picks the '
+      'LAST record of the object in the target transaction (the one load '
+      'uses): FileStorage and the pack copier agree', props=['C06', 'C17'],
+      min_instances=2)
+def r8(R):
+    """Sibling agreement (F28).  A transaction that undoes several
+    transactions at once holds several records for one oid; the search loop
+    over the records of the transaction must therefore run to the end of
+    the transaction -- a `return` of a found position from inside the loop
+    is a first-match search."""
+    n = 0
+    for f in R.prog.all_functions():
+        if f.name != '_data_find':
+            continue
+        loops = [w for w in walk_local(f.node) if isinstance(w, ast.While)]
+        scan = None
+        for w in loops:
+            # the scan loop: its body compares a record header's oid with
+            # the oid searched for
+            for c in ast.walk(w):
+                if isinstance(c, ast.Compare) and isinstance(
+                        c.left, ast.Attribute) and c.left.attr == 'oid' and \
+                        len(c.ops) == 1 and isinstance(c.ops[0], ast.Eq):
+                    scan = w
+        R.require(scan is not None,
+                  '%s has no scan loop comparing h.oid' % f.qualname)
+        n += 1
+        R.instance('%s scan loop' % f.short)
+        for r in ast.walk(scan):
+            if isinstance(r, ast.Return) and not (
+                    isinstance(r.value, ast.Constant) and not r.value.value):
+                R.violation(
+                    (f.module.relpath, f.qualname,
+                     ' '.join(ast.unparse(r).split()), r.lineno),
+                    '%s returns the position of the FIRST record of the '
+                    'object found in the transaction; load, undo and the '
+                    'sibling implementation use the LAST one, so a '
+                    'backpointer into a transaction that undid several '
+                    'transactions at once is redirected to an intermediate '
+                    'state' % f.short, key='first-match return in scan loop')
+    R.require(n >= 2, 'expected FileStorage._data_find and '
+              'PackCopier._data_find')
